@@ -199,6 +199,10 @@ def spec(t):
 
 
 def main():
+    if os.environ.get("KOGE29_ALL_SYM_PC"):
+        # thorough tier, second pass: EVERY form with a symbolic code address (on-chip RAM or DRAM)
+        for f in F:
+            f["pc"] = "sym"
     out = ["// GENERATED by kani/gen_forms.py -- do not edit\n"]
     groups = {}
     for f in F:
